@@ -11,5 +11,19 @@ CLAIMED = {
     'C11': (T, Q, None),
     'C12': (T, Q, None),
     'C13': (T, Q, None),
+    'C07': ('Coq proof over a Gallina state machine of the front-ends (abstract transform T, file system with name resolution and '
+            'file identity) + history correspondence against library / svgdx binary / svgdx-server + oracle',
+            'theorems for all T, all name spaces, all file systems, all request histories (induction); T instantiated by a measured table for execution',
+            'PARTIAL. Proved in Coq for every document transform T, file system and request history: a failed request leaves the whole file '
+            'system unchanged and is reported (Err / non-zero exit + message / 400 text/plain); the final state of any history is that of its '
+            'successful requests alone; every front-end delivers exactly T(input, config) (return value, writer, stdout, output file, response '
+            'body); an observation depends only on its own request and the files it names (history independence); -o naming the input through any '
+            'spelling that canonicalises equal is refused. Stated and refuted: agreement without exception (K11: empty output is Ok("") in the '
+            'library, 400 in the server) and refusal for every name of the same file (K22: a hard link of the input is overwritten). The model is a '
+            'hand transcription of lib.rs transform_file / cli.rs from_args / bin/svgdx.rs / server.rs transform tied to the code by regenerated '
+            'tables (messages, status codes, content types, the temp-file protocol flag) and by running the extracted model on the same histories as '
+            'the implementation. Not proved / not modelled: concurrent interleavings are sampled (8-32 threads), not enumerated - there is no shared '
+            'mutable state in the modelled code, so a future cache or static is caught by the correspondence/oracle, not by the proof; OS atomicity '
+            'of fs::copy, clap argument parsing, tempfile, axum/tokio/hyper, --watch.'),
 }
 NA = {}
